@@ -74,7 +74,9 @@ def check(run):
     run.ob("C12.R1", "%s:stores-tymeout-parameter" % rinit.fq, ok, run.site(rinit),
            "" if ok else "Remoter.__init__ does not store its tymeout parameter in self.tymeout")
     ty = stores.get("self.tymer")
-    ok = isinstance(ty, ast.Call) and any(kw.arg == "duration" and dotted(kw.value) == "self.tymeout" for kw in ty.keywords)
+    # duration is self.tymeout, or the very local that was stored into self.tymeout
+    tsrc = dotted(stores.get("self.tymeout")) if stores.get("self.tymeout") is not None else None
+    ok = isinstance(ty, ast.Call) and any(kw.arg == "duration" and dotted(kw.value) in ("self.tymeout", tsrc) and dotted(kw.value) for kw in ty.keywords)
     run.ob("C12.R1", "%s:tymer-duration-is-tymeout" % rinit.fq, ok, run.site(rinit),
            "" if ok else "Remoter.tymer is not built with duration=self.tymeout")
 
